@@ -118,6 +118,14 @@ pub fn phase(sim: &mut Sim, rng: &mut Rng, rep: &mut Report) -> Result<(), Strin
 					chase_hash = Some(sim.w.payments[pi].hash.0);
 					rep.count("onchain_fee_chaser_target_sent");
 				}
+			} else if hi > 6_000_000 && rng.chance(1, 4) {
+				// two parts of one payment over the same channel: two HTLC outputs with one payment hash
+				let a1 = 1_000_000 + rng.below((hi / 16).max(1));
+				let a2 = 1_000_000 + rng.below((hi / 16).max(1));
+				sim.w.note(format!("ONCHAIN-PREP SEND node{}->node{} two parts over the same channel amt={}+{}", src, dst, a1, a2));
+				if sim.w.send_payment(src, &[(vec![ci], a1), (vec![ci], a2)], *rng.pick(&[50u32, 80, 144]), None, None).is_ok() {
+					rep.count("onchain_prep_two_part_payments_over_one_channel");
+				}
 			} else if hi > 3_000_000 {
 				let amt = 1_000_000 + rng.below((hi / 8).max(1));
 				sim.w.note(format!("ONCHAIN-PREP SEND node{}->node{} amt={}", src, dst, amt));
